@@ -908,7 +908,7 @@ func (p *Path) chanSend(ch *Chan, v Value) {
 	if ch.closed {
 		panic(targetPanic{msg: "send on closed channel"})
 	}
-	if len(ch.q) >= ch.cap {
+	if len(ch.q) >= ch.cap+p.chanSlack {
 		p.abortf("send on full channel would block (sequential semantics)")
 	}
 	ch.q = append(ch.q, copyVal(v))
